@@ -20,14 +20,14 @@ func Main() {
 		}
 		return
 	case "--needs-race":
-		if c := Get(args[1]); c != nil && c.Race {
+		if c := Get(args[1]); c != nil && (c.Race || anyLane(c, func(l *Check) bool { return l.Race })) {
 			fmt.Println("yes")
 		} else {
 			fmt.Println("no")
 		}
 		return
 	case "--needs-asan":
-		if c := Get(args[1]); c != nil && c.Asan {
+		if c := Get(args[1]); c != nil && (c.Asan || anyLane(c, func(l *Check) bool { return l.Asan })) {
 			fmt.Println("yes")
 		} else {
 			fmt.Println("no")
@@ -70,4 +70,13 @@ func Main() {
 		os.Exit(ReplayMain(id, replay))
 	}
 	os.Exit(ParentMain(id, tier, seed))
+}
+
+func anyLane(c *Check, f func(*Check) bool) bool {
+	for _, id := range c.Also {
+		if l := Get(id); l != nil && f(l) {
+			return true
+		}
+	}
+	return false
 }
